@@ -118,7 +118,7 @@ impl Gen {
                 "redundant" => (22, 6, 8, 8, 8, 10, 3, 1, 0, 28, 6),
                 "reload" => (35, 8, 5, 5, 10, 18, 3, 1, 12, 3, 0),
                 "mixed" => (30, 8, 6, 6, 10, 20, 6, 1, 5, 6, 3),
-                "unusual" => (30, 8, 6, 6, 10, 22, 5, 1, 0, 6, 8),
+                "unusual" => (30, 8, 6, 6, 10, 22, 5, 1, 3, 6, 8),
                 "malformed" | "edge" => (40, 5, 10, 5, 8, 25, 2, 1, 2, 4, 0),
                 "ties" => (42, 8, 5, 5, 10, 22, 2, 1, 2, 3, 0),
                 "py" => (45, 10, 0, 0, 12, 24, 4, 0, 4, 0, 3),
@@ -234,7 +234,7 @@ impl Gen {
                 }
             }
         } else if pick(w_time) {
-            if prof == "unusual" && self.chance(0.5) { self.t = self.t.saturating_sub(self.rng.gen_range(0..8)); }
+            if (prof == "unusual" || prof == "py") && self.chance(0.5) { self.t = self.t.saturating_sub(self.rng.gen_range(0..8)); }
             else { self.t = self.t.saturating_add(self.rng.gen_range(0..5)); }
             ops.push(Op::Time(self.t));
         }
